@@ -45,12 +45,12 @@ def expected_bins(fnu, resp, snu):
     return out
 
 
-def make_filter(fnu, resp, name='f'):
+def make_filter(fnu, resp, name='f', unit='Hz'):
     from sedfitter.filter import Filter
     f = Filter()
     f.name = name
     f.central_wavelength = 1. * u.micron
-    f.nu = np.asarray(fnu, float) * u.Hz
+    f.nu = (np.asarray(fnu, float) * u.Hz).to(getattr(u, unit))      # the frequencies may be held in any frequency unit
     f.response = np.asarray(resp, float)
     return f
 
@@ -58,14 +58,14 @@ def make_filter(fnu, resp, name='f'):
 def c06_one(rec, case):
     c = unjson_floats(case)
     fnu, resp, snu = np.array(c['fnu']), np.array(c['resp']), np.array(c['snu'])
-    f = make_filter(fnu, resp)
+    f = make_filter(fnu, resp, unit=c.get('f_unit', 'Hz'))
     if c.get('normalize'):
         f.normalize()
         norm = abs(pl_integral(*((fnu, resp) if fnu[0] < fnu[-1] else (fnu[::-1], resp[::-1])), min(fnu), max(fnu)))
         resp = resp / norm
         rec.expect(close(f.response, resp, 1e-10, 0), 'normalize', 'normalize() does not divide by |integral of R d nu|', case)
     try:
-        b = f.rebin(snu * u.Hz)
+        b = f.rebin((snu * u.Hz).to(getattr(u, c.get('s_unit', 'Hz'))))
     except Exception as e:
         rec.fail('crash', 'rebin raised %s: %s' % (type(e).__name__, e), case)
         return False
@@ -123,9 +123,10 @@ def run_c06(tier, seed):
             fnu, resp = fnu[::-1], resp[::-1]
         if so:
             snu = snu[::-1]
-        case = dict(seed=seed, tag='c06', fnu=jsonable(fnu), resp=jsonable(resp), snu=jsonable(snu), normalize=bool(t % 2))
+        case = dict(seed=seed, tag='c06', fnu=jsonable(fnu), resp=jsonable(resp), snu=jsonable(snu), normalize=bool(t % 2),
+                    f_unit=('kHz' if t % 4 == 3 else 'Hz'), s_unit=('kHz' if t % 7 == 5 else 'Hz'))
         c06_one(rec, case)
-        rec.case(key=(fo, so, kind, nf, ns), nontrivial=kind != 5,
+        rec.case(key=(fo, so, kind, nf, ns, case['f_unit'], case['s_unit']), nontrivial=kind != 5,
                  sample=dict(filter_descending=fo, sed_descending=so, overlap_kind=kind, n_filter=nf, n_sed=ns) if t < 3 else None)
     _subset_small(rec, seed)
     _through_files(rec, seed, 2 if tier == 'quick' else 12)
